@@ -25,7 +25,7 @@ ASSUMPTIONS = ["rejection = any exception / non-zero exit; nothing is required o
 
 
 def budget(tier):
-    return 2500 if tier == "quick" else 250000
+    return 4000 if tier == "quick" else 250000
 
 
 def ref_sizes(spec, size):
